@@ -27,14 +27,18 @@ CHECKS["C20"]["text"] = CHECKS["C20"]["text"].replace("For eleven scenarios", "F
 CHECKS["C13"]["text"] += (" Explicit-state search over SM9 key-exchange objects: every history to depth 3 (thorough: depth 4 over a reduced alphabet) of a 40-step alphabet "
                           "(valid and 8-9 hostile forms of every peer-supplied argument, both roles, with and without confirmation) on a fresh real object; steps the local caller "
                           "may not make are cut. Decryptor identity length 0..65 x lane class of the hostile C2 / key length. DER length octets at 2^31/2^32/2^63/2^64 boundaries.")
-CHECKS["C20"]["text"] += (" Scenarios S26-S28 (one VerifyOptions value with pools, constraint callback and KeyUsages shared by concurrent verifications and Clone()s; the process-wide "
+CHECKS["C20"]["text"] += (" sync/atomic operations are scheduling points too (hooks/verifatomic); S29 first use of fresh AEADs by the threads, S30/S31 the SM2 algorithms on other curves."
+                          " Scenarios S26-S28 (one VerifyOptions value with pools, constraint callback and KeyUsages shared by concurrent verifications and Clone()s; the process-wide "
                           "system root pool; a pool with two same-subject roots). The instrumented copies lose their //go:norace directives and the bigmod helpers over shared moduli "
                           "have a scheduling point before every top-level statement.")
 CHECKS["C06"]["text"] += " Short digests are the integers their bytes spell; chosen small (r,s) and extreme digest x extreme abscissa on both arithmetic paths."
 CHECKS["C08"]["text"] += " Refused peer points are steps of the protocol machine; over-range ordinates in their 32-byte form (y+p for a point with small y, found by solving the cubic)."
 CHECKS["C15"]["text"] += " Pools with constraint callbacks are also verified through Clone(); the caller's KeyUsages slice is unchanged after every Verify."
 CHECKS["C18"]["text"] += " The method-3 length block as an integer at 2^w and 2^w -/+ d for w in {7,8,15,16,31,32,63,64,8bs-1,8bs}."
-CHECKS["C14"]["text"] += " SEC1/PKCS#8 with a foreign public key field (refused or the scalar's own key); five dispatch configurations."
+CHECKS["C14"]["text"] += " SEC1/PKCS#8 with a foreign public key field (refused or the scalar's own key); five dispatch configurations; decrypted plaintexts held across later decryptions; aligned plaintexts with padding-like tails."
+CHECKS["C19"]["text"] += " E4: the caller's block cipher fails at every operation index of an earlier call, then the object is reused."
+CHECKS["C16"]["text"] += " Every cfca artefact to every source-taking wrapper; one PSK buffer rotated in place; SM cases also on c-nopclmul / c-noaes."
+CHECKS["C11"]["text"] += " Single-bit messages at every position of the last 160 bits for every bit length."
 CHECKS["C07"]["text"] += " Masks with exactly one non-zero byte (k searched) for n = 2, 3."
 CHECKS["C10"]["text"] += " h + n in 32 bytes (r walked until h < 2^256 - n)."
 
